@@ -40,7 +40,7 @@ def run(ctx: Ctx) -> None:
     for i in range(ctx.pick(90, 900)):
         g = V.Gen(ctx.rng, depth=ctx.rng.randint(1, ctx.pick(3, 4)), branching=ctx.rng.randint(1, 3), p_soll=0.45)
         spec = g.ahb()
-        cer = g.cer(p_unknown=0.0)
+        cer = g.cer(p_unknown=0.0 if i % 3 else 0.12)  # UNKNOWN outcomes: SOLL read as MUSS must abort like MUSS does
         n_soll = sum(1 for kind, node, _ in V.walk(spec) if kind != "pool" for k, _, _ in node["expr"]["parts"] if k == "SOLL")
         for soll in (True, False):
             base = V.run_validation(spec, cer, soll)
